@@ -231,6 +231,11 @@ pub struct Session {
     pub note: String,
     pub pics: Vec<PlanPic>,
     pub events: Vec<Ev>,
+    /// Swarm knob: every source of this run hands out at most this many bytes
+    /// per read (0 = unlimited).  Invisible to code that reads byte by byte; it
+    /// matters the moment someone batches reads.
+    #[serde(default)]
+    pub max_chunk: usize,
 }
 
 #[derive(Clone, Copy, Debug, PartialEq, Eq)]
